@@ -15,6 +15,8 @@ use crate::names::shrink_identifier;
 use crate::shrinking::{Shrinking, ShrinkingState};
 use crate::types::shrink_ty;
 
+use printer::Print;
+
 use std::collections::BTreeSet;
 use std::rc::Rc;
 
@@ -180,10 +182,22 @@ fn lift(statement: FsStatement, state: &mut ShrinkingState) -> Rc<axcut::syntax:
         });
     }
 
-    let label = fresh_identifier(
+    let mut label = fresh_identifier(
         state.max_id,
         &("lift_".to_string() + state.current_label + "_"),
     );
+    // the label must not be printed like the label of another top-level function
+    while state
+        .used_labels
+        .iter()
+        .any(|used_label| used_label.print_to_string(None) == label.print_to_string(None))
+    {
+        label = fresh_identifier(
+            state.max_id,
+            &("lift_".to_string() + state.current_label + "_"),
+        );
+    }
+    state.used_labels.insert(label.clone());
     let context = shrink_context(context.into(), state.codata);
     // we substitute the fresh variables for the free ones in the body
     let body = statement.subst_sim(&subst).shrink(state);
